@@ -14,3 +14,10 @@ open Nitime.C09.Props
 #print axioms cache_relphase_eq_dense_angle
 #print axioms cache_freqs_eq_dense
 #print axioms defaults_agree
+#print axioms F_segOf
+#print axioms cache_relphase_eq_mean_dense_angles
+#print axioms cache_phase_eq_mean_segment_angles
+#print axioms Nitime.Coh.searchLeftBy_eq
+#print axioms Nitime.Coh.searchRightBy_eq
+#print axioms Nitime.Coh.getBounds_kept_bins
+#print axioms Nitime.Coh.getBounds_kept_bins_none
